@@ -4,7 +4,7 @@
    correspondence); lookup_register / REGISTERS are GENERATED from asm.py (Gen/Encoders.v); py_int_lit is the model of
    int(s, 0) (Base/PyBase.v); regnum is the documented reading of a register operand (Spec/Operands.v). *)
 From Coq Require Import ZArith List String Ascii.
-From BB Require Import Base.PyBase Gen.Encoders Spec.RV32 Spec.Operands Model.Items Model.Lexer Model.Parser Proofs.LexSep Proofs.LexFront Proofs.ParseForms.
+From BB Require Import Base.PyBase Gen.Encoders Spec.RV32 Spec.Operands Model.Items Model.Lexer Model.Parser Proofs.LexSep Proofs.LexFront Proofs.ParseForms Proofs.Program.
 Import ListNotations.
 Open Scope Z_scope.
 
@@ -71,3 +71,18 @@ Theorem C13_imm_reg_table :
   forallb (fun n => mem_str n BASE_OFFSET_INSTRUCTIONS_final) (load_names ++ store_names) = true.
 Proof. exact forms_cover_table. Qed.
 Print Assumptions C13_imm_reg_table.
+
+(* program level: the model of asm.assemble on the lines of one file (lex + parse every line, run the 16 passes).  If two
+   versions of a program agree line by line on the tokens the lexer produces (C13_line: any separator style, indentation,
+   trailing comment), they give the SAME result -- bytes, label table, constants, or the same error -- in both modes.
+   (Extra blank / comment-only lines shift physical line numbers, which only the error locations carry; their
+   invariance is decided by the falsifier.) *)
+Theorem C13_program : forall p1 p2 consts labels compress,
+  Forall2 same_tokens p1 p2 -> assemble_text p1 consts labels compress = assemble_text p2 consts labels compress.
+Proof. exact program_rewrite. Qed.
+Print Assumptions C13_program.
+Theorem C13_program_styles : forall ts sty1 sty2,
+  Forall tok_ok ts -> not_special ts -> style_ok sty1 ts -> style_ok sty2 ts ->
+  lex_tokens (unchars (render sty1 ts)) = lex_tokens (unchars (render sty2 ts)).
+Proof. exact lex_tokens_styles. Qed.
+Print Assumptions C13_program_styles.
